@@ -328,7 +328,7 @@ pub fn dijkstra_case(g: &WG, d: &WU, srcs: &[usize], ctx: &mut Ctx) {
 
 fn c03_space(n: usize, alphabet: &'static [i64], max_arcs: usize, max_sources: usize) -> Space {
     let total = pow(alphabet.len() as u64 + 1, n * (n - 1));
-    Space::new("c03.dijkstra", vec![n as u64, alphabet.len() as u64, alphabet.iter().sum::<i64>() as u64, max_arcs as u64, max_sources as u64], total, format!("Dijkstra/DijkstraDist/distances on every AdjacencyListWeighted<usize> digraph on 0..{n} with weights from {alphabet:?} (≤ {max_arcs} arcs), every source subset with ≤ {max_sources} sources, ascending and descending order"), move |idx, ctx| {
+    Space::new("c03.dijkstra", vec![n as u64, alphabet.len() as u64, alphabet.iter().sum::<i64>().unsigned_abs() % 1_000_003, max_arcs as u64, max_sources as u64], total, format!("Dijkstra/DijkstraDist/distances on every AdjacencyListWeighted<usize> digraph on 0..{n} with weights from {alphabet:?} (≤ {max_arcs} arcs), every source subset with ≤ {max_sources} sources, ascending and descending order"), move |idx, ctx| {
         let g = WG::from_code(n, idx, alphabet);
         if g.arcs > max_arcs {
             ctx.skip();
@@ -365,11 +365,13 @@ fn c03_space(n: usize, alphabet: &'static [i64], max_arcs: usize, max_sources: u
 static A0125: [i64; 4] = [0, 1, 2, 5];
 static A13: [i64; 2] = [1, 3];
 static A013: [i64; 3] = [0, 1, 3];
+/// weights beyond 32 bits: a narrowing cast or a 32-bit accumulator would show
+static ABIG: [i64; 3] = [1, (1 << 32) + 1, 1 << 40];
 static A1: [i64; 1] = [1];
 
 pub fn c03(tier: &str, seed: u64) -> Check {
     let thorough = tier == "thorough";
-    let mut spaces = vec![c03_space(1, &A0125, 99, 1), c03_space(2, &A0125, 99, 2), c03_space(3, &A0125, 99, 3), c03_space(4, &A13, 99, 4)];
+    let mut spaces = vec![c03_space(1, &A0125, 99, 1), c03_space(2, &A0125, 99, 2), c03_space(3, &A0125, 99, 3), c03_space(4, &A13, 99, 4), c03_space(3, &ABIG, 99, 3), c03_space(4, &ABIG, 5, 2)];
     if thorough {
         spaces.push(c03_space(4, &A013, 99, 4));
         spaces.push(c03_space(5, &A13, 7, 1));
@@ -383,7 +385,7 @@ pub fn c03(tier: &str, seed: u64) -> Check {
         tier,
         seed,
         "bounded-exhaustive: every AdjacencyListWeighted<usize> digraph of order ≤ 3 with weights {0,1,2,5}, order 4 with weights {1,3} (all 3^12), order 4 with {0,1,3} (≤ 6 arcs quick / all 4^12 thorough), order 5 with ≤ 7 arcs (thorough) × every subset of sources in both orders; Dijkstra and DijkstraDist item streams (each reachable vertex once, none unreachable, non-decreasing true distance, exact item distance) and distances() against distances from |V|-1 rounds of set relaxation in i128. Ties are accepted in any order. Beyond exhaustive reach: a fixed catalogue of 17 structured shapes × 4 weight patterns at orders 6..11 (up to 110 arcs), every single source and six source sets. Non-trivial: a lazy-deletion heap simulated on the reference pops a superseded entry before the last reachable vertex is settled.",
-        &["weights from small alphabets: path sums never approach usize::MAX", "sources distinct and in range"],
+        &["weights from small alphabets plus one alphabet beyond 32 bits {1, 2^32+1, 2^40}: path sums never approach usize::MAX", "sources distinct and in range"],
         json!({"alphabets": {"n<=3": [0,1,2,5], "n=4": [[1,3],[0,1,3]]}}),
     );
     Check { spaces, report, post: None }
@@ -540,7 +542,7 @@ pub fn c05_dijkstra_case(g: &WG, d: &WU, srcs: &[usize], ctx: &mut Ctx) -> bool 
 
 fn c05_dij_space(n: usize, alphabet: &'static [i64], max_sources: usize) -> Space {
     let total = pow(alphabet.len() as u64 + 1, n * (n - 1));
-    Space::new("c05.dijkstra", vec![n as u64, alphabet.len() as u64, alphabet.iter().sum::<i64>() as u64, max_sources as u64], total, format!("DijkstraPred predecessors / items / shortest_path on every weighted digraph on 0..{n} with weights {alphabet:?}, source subsets with 1..={max_sources} sources, every target predicate (2^{n} subsets)"), move |idx, ctx| {
+    Space::new("c05.dijkstra", vec![n as u64, alphabet.len() as u64, alphabet.iter().sum::<i64>().unsigned_abs() % 1_000_003, max_sources as u64], total, format!("DijkstraPred predecessors / items / shortest_path on every weighted digraph on 0..{n} with weights {alphabet:?}, source subsets with 1..={max_sources} sources, every target predicate (2^{n} subsets)"), move |idx, ctx| {
         let g = WG::from_code(n, idx, alphabet);
         let d = g.build_wu();
         let mut nt = false;
@@ -716,6 +718,7 @@ pub fn c05(tier: &str, seed: u64) -> Check {
         spaces.push(c05_bfs_space::<AL>(5, 1));
     }
     spaces.push(c05_dij_space(2, &A0125, 2));
+    spaces.push(c05_dij_space(3, &ABIG, 3));
     spaces.push(c05_dij_space(3, &A0125, 3));
     spaces.push(c05_dij_space(4, &A13, if thorough { 4 } else { 1 }));
     if thorough {
@@ -740,6 +743,7 @@ static AM2: [i64; 5] = [-2, -1, 0, 1, 2];
 static AM1P2: [i64; 2] = [-1, 2];
 static AM4: [i64; 4] = [-2, -1, 1, 3];
 static AM3: [i64; 3] = [-1, 0, 2];
+static AMBIG: [i64; 4] = [-(1 << 40), 1, (1 << 33) + 3, 1 << 41];
 
 fn fmt_d(d: &[i128; NMAX], n: usize) -> Vec<Value> {
     d.iter().take(n).map(|&x| if x == INF { json!("unreachable") } else { json!(x as i64) }).collect()
@@ -823,7 +827,7 @@ pub fn c07_case_with(g: &WG, neg_known: Option<u32>, ctx: &mut Ctx) {
 
 fn c07_space(n: usize, alphabet: &'static [i64]) -> Space {
     let total = pow(alphabet.len() as u64 + 1, n * (n - 1));
-    Space::new("c07.bfm", vec![n as u64, alphabet.len() as u64, (alphabet.iter().sum::<i64>() + 100) as u64], total, format!("BellmanFordMoore::distances on every AdjacencyListWeighted<isize> digraph on 0..{n} with weights from {alphabet:?}, every source"), move |idx, ctx| {
+    Space::new("c07.bfm", vec![n as u64, alphabet.len() as u64, (alphabet.iter().sum::<i64>() + 100).unsigned_abs() % 1_000_003], total, format!("BellmanFordMoore::distances on every AdjacencyListWeighted<isize> digraph on 0..{n} with weights from {alphabet:?}, every source"), move |idx, ctx| {
         let g = WG::from_code(n, idx, alphabet);
         c07_case(&g, ctx);
         ctx.sample(|| json!({"digraph": g.json(), "sources": "every vertex", "negative_circuit_vertices": mask_vec(g.neg_circuit_vertices(), g.n)}));
@@ -856,7 +860,7 @@ fn c07_space5(alphabet: &'static [i64], max_arcs: usize) -> Space {
 
 pub fn c07(tier: &str, seed: u64) -> Check {
     let thorough = tier == "thorough";
-    let mut spaces = vec![c07_space(1, &AM2), c07_space(2, &AM2), c07_space(3, &AM2), c07_space(4, &AM1P2), c07_space(4, &AM3)];
+    let mut spaces = vec![c07_space(1, &AM2), c07_space(2, &AM2), c07_space(3, &AM2), c07_space(4, &AM1P2), c07_space(4, &AM3), c07_space(3, &AMBIG)];
     if thorough {
         spaces.push(c07_space(4, &AM4));
         spaces.push(c07_space5(&AM1P2, 7));
@@ -868,7 +872,7 @@ pub fn c07(tier: &str, seed: u64) -> Check {
         tier,
         seed,
         "bounded-exhaustive: every AdjacencyListWeighted<isize> digraph of order ≤ 3 over weights {-2,-1,0,1,2} and of order 4 over {-1,2} (3^12; thorough adds {-1,0,2} (4^12) and {-2,-1,1,3} (5^12)) × every source. All arc counts 0..12 occur, so every residue mod 4 of the unrolled loop at every fill level (counted per residue in tags). Oracle: a negative circuit (found by exhaustive simple-cycle enumeration) reachable from s ⇒ None; no negative circuit anywhere ⇒ Some; whenever Some(d): d exact vs |V|-1 rounds of set relaxation in i128 with isize::MAX iff unreachable; with only an unreachable negative circuit either answer is accepted; non-negative inputs must agree with DijkstraDist; distances() twice must agree. Plus the structured catalogue at orders 6..11 (up to 110 arcs, so the unrolled loop runs far beyond 12 arcs) with potential-reweighted negative arcs (no negative circuit by construction) and, for the strongly connected shapes, one arc lowered until a negative circuit exists (None required from every source). Non-trivial: the digraph has a negative circuit and ≥ 3 arcs (every catalogue case counts).",
-        &["weights from small alphabets: no path sum approaches isize::MAX", "sources in range"],
+        &["weights from small alphabets plus {-2^40, 1, 2^33+3, 2^41} at order 3: no path sum approaches isize::MAX", "sources in range"],
         json!({"alphabets": {"n<=3": [-2,-1,0,1,2], "n=4": [[-1,2]]}}),
     );
     Check { spaces, report, post: None }
@@ -1002,7 +1006,7 @@ pub fn c08_case_checked(g: &WG, ctx: &mut Ctx) {
 
 fn c08_space(n: usize, alphabet: &'static [i64]) -> Space {
     let total = pow(alphabet.len() as u64 + 1, n * (n - 1));
-    Space::new("c08.fw", vec![n as u64, alphabet.len() as u64, (alphabet.iter().sum::<i64>() + 100) as u64], total, format!("FloydWarshall::distances on every AdjacencyListWeighted<isize> digraph on 0..{n} with weights from {alphabet:?} that has no negative circuit"), move |idx, ctx| {
+    Space::new("c08.fw", vec![n as u64, alphabet.len() as u64, (alphabet.iter().sum::<i64>() + 100).unsigned_abs() % 1_000_003], total, format!("FloydWarshall::distances on every AdjacencyListWeighted<isize> digraph on 0..{n} with weights from {alphabet:?} that has no negative circuit"), move |idx, ctx| {
         let g = WG::from_code(n, idx, alphabet);
         c08_case(&g, ctx);
         ctx.sample(|| json!({"digraph": g.json(), "pairs": "all ordered pairs"}));
@@ -1011,7 +1015,7 @@ fn c08_space(n: usize, alphabet: &'static [i64]) -> Space {
 
 pub fn c08(tier: &str, seed: u64) -> Check {
     let thorough = tier == "thorough";
-    let mut spaces = vec![c08_space(1, &AM2), c08_space(2, &AM2), c08_space(3, &AM2), c08_space(4, &AM1P2), c08_space(4, &AM3)];
+    let mut spaces = vec![c08_space(1, &AM2), c08_space(2, &AM2), c08_space(3, &AM2), c08_space(4, &AM1P2), c08_space(4, &AM3), c08_space(3, &AMBIG)];
     if thorough {
         spaces.push(c08_space(4, &AM4));
     }
